@@ -93,3 +93,13 @@ Theorem C16_copy_never_panics F sh sl dest o until now d logs :
   r_status (copy_core F (RdOk sh sl) dest o until now) <> StPanic.
 Proof. exact (copy_core_no_panic F sh sl dest o until now d logs). Qed.
 Print Assumptions C16_copy_never_panics.
+
+(** ** no silent success: when the report cannot be written (the -text-out target cannot be opened,
+    or every write to it fails) no command reports success, whatever it did; the command's own
+    failures are reported as they are; a writable target changes no verdict *)
+Theorem C16_unwritable_report_is_never_success to st : to = ToBad \/ to = ToFull -> textout_status to st <> StOk.
+Proof. exact (textout_never_silent to st). Qed.
+Print Assumptions C16_unwritable_report_is_never_success.
+Theorem C16_command_failures_are_kept to st : st <> StOk -> to <> ToBad -> textout_status to st = st.
+Proof. exact (textout_keeps_failures to st). Qed.
+Print Assumptions C16_command_failures_are_kept.
